@@ -217,7 +217,8 @@ def run_property(prop_id, tier, seed, jobs=None, only=None, verbose=False):
     # that stopped on a timeout get one more, quieter, attempt (4 workers) before they are
     # reported as inconclusive
     again = [i for i, r in zip(order, results)
-             if r['status'] == 'inconclusive' and 'imeout' in str(r.get('reason'))]
+             if r['status'] == 'inconclusive' and ('imeout' in str(r.get('reason')) or
+                                                   'budget' in str(r.get('reason')))]
     if again:
         with ctx.Pool(min(4, len(again)), maxtasksperchild=4) as pool:
             second = pool.map(_run_shard, again, chunksize=1)
